@@ -23,7 +23,7 @@ RULE = ("cases = (a) a 6-statement script (table with inline and table-level ref
         "(exhaustive); (c) every grammar keyword x 3 spellings as undelimited table, schema, constraint, index, sequence, type, "
         "referenced-table and ALTER-target name (exhaustive; the words that fail on the pinned tree are listed known findings). "
         "Non-trivial = at least one identifier is delimited, mixed-case or keyword-shaped; distinct = distinct (DDL, setting)."
-        " Added after seeded defects: keyword-shaped column names re-used in 10 key/reference/index/ALTER list positions, names that merely start with a keyword (every keyword x 4 suffixes x 7 positions), names with # $ @, ARRAY-prefixed names (exact-spelling known findings), normalize_names handed over through parse_from_file.")
+        " Added after seeded defects: keyword-shaped column names re-used in 10 key/reference/index/ALTER list positions, names that merely start with a keyword (every keyword x 4 suffixes x 7 positions), names with # $ @, ARRAY-prefixed names (exact-spelling known findings), normalize_names handed over through parse_from_file, a column renamed by ALTER (old and new name as roles).")
 ASSUMPTIONS = ["each identifier is unique within its script (so an identifier-aware textual strip is unambiguous)",
                "an identifier keeps the same spelling everywhere it is used in one script"]
 MIN_EVENTS = {"statements": 100, "run_return": 100}
@@ -90,7 +90,7 @@ def make_ident(rng, base, classes=None):
     raise ValueError(cls)
 
 
-ROLES = ["S", "T", "A", "B", "C", "CN", "UQ", "CK", "IX", "FK", "RT", "RC", "RS", "SQ", "TY", "DM", "D", "IK"]
+ROLES = ["S", "T", "A", "B", "C", "CN", "UQ", "CK", "IX", "FK", "RT", "RC", "RS", "SQ", "TY", "DM", "D", "IK", "E", "F"]
 
 
 def gen_script(rng, classes=None):
@@ -106,11 +106,12 @@ def gen_script(rng, classes=None):
         ids[role] = ident
     g = {k: v[0] for k, v in ids.items()}
     ddl = (
-        "CREATE TABLE {S}.{T} (\n  {A} int NOT NULL,\n  {B} varchar(10) REFERENCES {RS}.{RT} ({RC}),\n  {C} date,\n  {D} {S}.{TY} NOT NULL,\n"
+        "CREATE TABLE {S}.{T} (\n  {A} int NOT NULL,\n  {B} varchar(10) REFERENCES {RS}.{RT} ({RC}),\n  {C} date,\n  {D} {S}.{TY} NOT NULL,\n  {E} int,\n"
         "  CONSTRAINT {CN} PRIMARY KEY ({A}, {B}),\n  CONSTRAINT {UQ} UNIQUE ({B}, {C}, {A}, {D}),\n  CONSTRAINT {CK} CHECK ({A} > 0),\n"
         "  FOREIGN KEY ({C}) REFERENCES {RT} ({RC}) ON DELETE CASCADE,\n  KEY {IK} ({B})\n);\n"
         "CREATE UNIQUE INDEX {IX} ON {S}.{T} ({A} ASC, {B} DESC);\n"
         "ALTER TABLE {S}.{T} ADD CONSTRAINT {FK} FOREIGN KEY ({A}) REFERENCES {RS}.{RT} ({RC});\n"
+        "ALTER TABLE {S}.{T} RENAME COLUMN {E} TO {F};\n"
         "CREATE SEQUENCE {S}.{SQ} START WITH 5;\n"
         "CREATE TYPE {S}.{TY} AS ENUM ('a', 'b');\n"
         "CREATE DOMAIN {S}.{DM} AS varchar(10);\n"
@@ -123,7 +124,8 @@ def expected_positions(g):
     ref1 = {"table": g["RT"], "schema": g["RS"], "column": g["RC"]}
     return [
         (("0", "schema"), g["S"]), (("0", "table_name"), g["T"]),
-        (("0", "columns", "*name"), [g["A"], g["B"], g["C"], g["D"]]),
+        (("0", "columns", "*name"), [g["A"], g["B"], g["C"], g["D"], g["F"]]),            # the fifth column is renamed by the ALTER below
+        (("0", "alter", "renamed_columns", 0, "from"), g["E"]), (("0", "alter", "renamed_columns", 0, "to"), g["F"]),
         (("0", "columns", 1, "references", "table"), g["RT"]), (("0", "columns", 1, "references", "schema"), g["RS"]),
         (("0", "columns", 1, "references", "column"), g["RC"]),
         (("0", "columns", 2, "references", "table"), g["RT"]), (("0", "columns", 2, "references", "column"), g["RC"]),
